@@ -78,9 +78,13 @@ def idealStep (ztab : List (Bytes × Bytes)) (stt : Bytes × Nat) (c : DzCall) :
       ((consumed', produced), { take := c.avail.length, res := .wouldBlock })
     else ((consumed', produced), { take := c.avail.length, res := .err })
 
-def idealDz (ztab : List (Bytes × Bytes)) (_ : Cenc) (hist : List DzCall) (c : DzCall) : DzOut :=
-  let stt := hist.foldl (fun s h => (idealStep ztab s h).1) ([], 0)
-  (idealStep ztab stt c).2
+def idealDz (ztab : List (Bytes × Bytes)) (cenc : Cenc) (hist : List DzCall) (c : DzCall) : DzOut :=
+  -- the first call of a history is the constructor: only the gzip decoder reads (its header) at construction
+  let isCtor (h : DzCall) : Bool := h.buflen == 0
+  let stepC (s : Bytes × Nat) (h : DzCall) : (Bytes × Nat) × DzOut :=
+    if isCtor h ∧ cenc != .gzip then (s, { take := 0, res := .wouldBlock }) else idealStep ztab s h
+  let stt := hist.foldl (fun s h => (stepC s h).1) ([], 0)
+  (stepC stt c).2
 
 def PlanSpec.toPlan (p : PlanSpec) : Plan :=
   { ans := p.ans, md5Check := p.md5Check, openOk := p.openOk, writeOk := fun k => p.failAt != some k }
